@@ -273,6 +273,8 @@ def writearlpackedbit(infile, path):
     props['NZ'] = lvar.shape[1] + 1
     props['NY'] = lvar.shape[2]
     props['NX'] = lvar.shape[3]
+    # maparlpackedbit expects (level, variable keys) pairs
+    props['laykeys'] = [(vglvl, laykeys) for vglvl in vglvls[1:]]
     datamap = maparlpackedbit(
         path, mode='write', shape=(lvar.shape[0],), props=props)
 
@@ -334,8 +336,9 @@ def writearlpackedbit(infile, path):
             var_time['data'][ti] = CVAR
         for layk in laykeys:
             invar = infile.variables[layk.decode()]
-            var_time = datamap['layers'][layk.decode()][ti]
-            for li, var_time_lay in enumerate(var_time):
+            for li, vglvl in enumerate(vglvls[1:]):
+                var_time_lay = datamap['layers'][str(vglvl)][layk.decode()]
+                var_time_lay = var_time_lay[ti:ti + 1]
                 varhead = var_time_lay['head']
                 for varpropk in varhead.dtype.names:
                     if varpropk not in _skipprop:
@@ -350,7 +353,6 @@ def writearlpackedbit(infile, path):
                 varhead['PREC'] = '%14.7E' % PREC
                 varhead['EXP'] = '%4d' % NEXP
                 varhead['VAR1'] = '%14.7E' % VAR1
-                vglvl = vglvls[li + 1]
                 checksums[vglvl, layk] = KSUM
 
         keys = {vglvls[0]: sfckeys}
@@ -361,7 +363,7 @@ def writearlpackedbit(infile, path):
         datamap['vardef'][ti] = ' '.ljust(datamap['vardef'][ti].itemsize)
         datamap['hdr'][ti] = ' '.ljust(datamap['hdr'][ti].itemsize)
         datamap['vardef'][ti] = vardef.encode('ascii')
-        thead['LENH'] = datamap['vardef'][ti].itemsize
+        thead['LENH'] = '%4d' % datamap['vardef'][ti].itemsize
 
     datamap.flush()
 
@@ -400,8 +402,8 @@ def maparlpackedbit(path, mode='r', shape=None, props=None):
         props.update(inqarlpackedbit(path))
     else:
         srflen = 6 + 2 + (4 + 3 + 1) * len(props['sfckeys'])
-        laylen = (6 + 2 + (4 + 3 + 1) *
-                  len(props['laykeys'])) * (props['NZ'] - 1)
+        laylen = sum([6 + 2 + (4 + 3 + 1) * len(layvarkeys)
+                      for laykey, layvarkeys in props['laykeys']])
         props['LENH'] = 108 + srflen + laylen
 
     nx = props['NX']
